@@ -853,14 +853,14 @@ def gen_perturb(rng, tier, mode=None):
         if mode == 'mixed': m = str(rng.choice(['pos', 'neg', 'zero']))
         if m in ('pos', 'none_entries', 'no_bounds', 'narrow'):
             p = round(float(np.exp(rng.uniform(np.log(0.01), np.log(50)))), 4)
-            lb = round(p / float(rng.uniform(1.2, 20)), 5); ub = round(p * float(rng.uniform(1.2, 20)), 5)
+            lb = round(p / float(rng.uniform(1.05, 6)), 5); ub = round(p * float(rng.uniform(1.05, 6)), 5)     # clamps are active in many draws
             if mode == 'narrow':
                 lb = round(p * 0.999, 6); ub = round(p * 1.004, 6)
         elif m == 'zero':
             p = round(float(rng.uniform(0.01, 5)), 4); lb = 0.0; ub = round(p * float(rng.uniform(1.5, 10)), 4)
         else:   # negative parameters / bounds (selection coefficients)
             p = -round(float(np.exp(rng.uniform(np.log(0.01), np.log(50)))), 4)
-            lb = round(p * float(rng.uniform(1.2, 20)), 5); ub = round(p / float(rng.uniform(1.2, 20)), 5) if rng.random() < 0.6 else round(float(rng.uniform(0.1, 5)), 4)
+            lb = round(p * float(rng.uniform(1.05, 6)), 5); ub = round(p / float(rng.uniform(1.05, 6)), 5) if rng.random() < 0.6 else round(float(rng.uniform(0.1, 5)), 4)
         params.append(p); lower.append(lb); upper.append(ub)
     if mode == 'none_entries':
         lower = [None if rng.random() < 0.5 else v for v in lower]; upper = [None if rng.random() < 0.5 else v for v in upper]
